@@ -37,3 +37,6 @@ def static_facts(repo, scratch):
 TRUSTED = ['malloc/free: malloc hands out the (fresh) bigger array; free is only counted (any free during push/pop/steal is a violation)']
 ASSUMPTIONS = ['SC (A1); the one store->load pair that needs a fence on x86-TSO is pinned by a static fact', 'weak CAS modelled strong (A3)', 'one owner per deque (only the owning kernel thread pushes/pops: fiber_scheduler_wsd.c; checked in C10)', '64-bit indices do not wrap (A6)',
                'whole-runtime clause "when every kernel thread is idle no runnable fiber is queued" is a history property over all threads: not decided by per-function contracts (see DESIGN.md)']
+# only the owning kernel thread pushes/pops its deques (anchor: fiber_manager.c): the functions that must re-fetch the per-thread manager after a
+# call that can migrate the fiber, and the scheduler-level use of the deques (C10), run here as well
+IMPORTS = [dict(prop='C01', groups=['clear_or_wait', 'wake_from_mpsc', 'wake_from_mpmc', 'maintenance_migrating_unlock']), dict(prop='C10', groups=['schedule', 'next'])]
